@@ -276,6 +276,8 @@ impl PhoneticSuggestion {
                             None => continue,
                         };
                         let suffix_lmc = suffix.chars().next().unwrap();
+                        // Start over for every base + suffix split of the word.
+                        selected.clear();
                         selected.push_str(base);
 
                         match rmc {
@@ -296,9 +298,6 @@ impl PhoneticSuggestion {
                             _ => (),
                         }
                         selected.push_str(suffix);
-
-                        // Save this for future reuse.
-                        selections.insert(string.word().to_string(), selected.to_string());
                     }
                 }
             }
